@@ -664,6 +664,7 @@ inside:
 #[cfg(feature = "verif-hooks")]
 pub mod verif_hooks {
   pub use super::nth_child::verif_hooks as nth_child;
+  pub use super::deserialize_env::verif_hooks as topo;
   pub use super::nth_child::NthChild;
   pub use super::range::RangeMatcher;
   pub use super::referent_rule::{ReferentRule, RuleRegistration};
